@@ -47,6 +47,11 @@ def configs(tier, seed):
     out = []
     for op, x, y in sel:
         out.append(dict(part='pair', op=op, x=list(x), y=list(y), route=rng.choice(('operator', 'function', 'numpy')), shape=[]))
+    # the documented exception under both overflow modes: unsigned - unsigned with a negative exact difference is that difference
+    # quantised into the unsigned result format (0 under saturate, the residue modulo 2^n_word under wrap)
+    uu = [(x, y) for x in fm for y in fm if not x[0] and not y[0] and 1 <= growth('sub', x, y)[1] <= 53]
+    for x, y in C.pick(uu, 120 if tier == 'quick' else len(uu), rng):
+        out.append(dict(part='pair', op='sub', x=list(x), y=list(y), route=rng.choice(('operator', 'function')), shape=[], overflow='wrap'))
     # arrays with broadcasting, and expression trees
     small = [(s, n, f) for (s, n, f) in fm if n <= 8]
     for _ in range(200 if tier == 'quick' else 1500):
@@ -147,6 +152,8 @@ def run(F, cfg, inp):
     else:
         x = C.raw_fxp(F, sx, nx, fx, inp['a0'])
         y = C.raw_fxp(F, sy, ny, fy, inp['b0'])
+        if cfg.get('overflow'):
+            x.config.overflow = cfg['overflow']        # the first operand's configuration governs the result
     if cfg['route'] == 'operator':
         z = _PYOP[cfg['op']](x, y)
     elif cfg['route'] == 'function':
@@ -213,7 +220,8 @@ def post(cfg, inp, ob):
             # unsigned - unsigned: exact when non-negative, otherwise the difference quantised into the unsigned result format
             nonneg = T.icmp(ex, 0, '>=')
             out.append(('exact_nonneg_%d' % i, SP.IMPLIES(nonneg, T.icmp(code, ex, '=='))))
-            out.append(('neg_difference_saturates_%d' % i, SP.IMPLIES(SP.NOT(nonneg), T.icmp(code, 0, '=='))))
+            qneg = SP.OVERFLOW(ex, False, fm[1], cfg.get('overflow') or 'saturate')
+            out.append(('neg_difference_quantised_into_unsigned_format_%d' % i, SP.IMPLIES(SP.NOT(nonneg), T.icmp(code, qneg, '=='))))
             anyneg = SP.OR(anyneg, SP.NOT(nonneg))
         else:
             out.append(('exact_%d' % i, T.icmp(code, ex, '==')))
